@@ -299,7 +299,7 @@ func (a Arith) BitNot(x *Node, t types.Type) *Node {
 func (a Arith) Convert(x *Node, from, to types.Type) *Node {
 	if isMath(to) {
 		if a.m == ModeBV {
-			panic("Z(...) is not available in bv mode")
+			panic(unsupportedErr{"Z(...) is not available in bv mode"})
 		}
 		return x
 	}
